@@ -20,9 +20,10 @@ CLAIMS = {
              "unknown divisions, independent layouts of the two inputs) the real optimised task graph is executed symbolically and proved equal to the reference semantics "
              "(the program applied to the whole symbolic table), or to refuse explicitly; the reference semantics is validated against real pandas per program, counterexamples are "
              "replayed against real pandas and real compute.",
-        note="Trusted: symdf's pandas model (validated differentially). Bounds: 4 (quick) / 5 (thorough) rows, 3 rows for the second input. Outside: UDF groupby, rolling, merge_asof, "
-             "resample, quantile-based sort/set_index, non-numeric dtypes, float rounding. One listed known finding (frame cumulative ops with an all-NaN partition column) is "
-             "assumed away in the main obligation and re-observed separately.",
+        note="Trusted: symdf's pandas model (validated differentially). Bounds: 4 (quick) / 5 (thorough) rows, 3 rows for the second input. Fixed-size trailing rolling windows, grouped var/std/agg and groupby(dropna=False) "
+             "are modelled (missing group label = 2**40, values bounded accordingly). The 'already sorted' decision of sort_values/set_index (_calculate_divisions) runs under CrossHair "
+             "with the computed minima/maxima as symbolic environment values. Outside: UDF groupby, time-based rolling, merge_asof, resample, the quantile values themselves, "
+             "non-numeric dtypes, float rounding.",
         design="§4 C02",
     ),
     "C03": dict(
@@ -50,7 +51,8 @@ CLAIMS = {
         text="K: Partitions, PartitionsFiltered, Head/Tail, FusedIO, LocSlice and the three repartition planners are executed with symbolic divisions, selections, slice bounds and "
              "a tracked row - reported divisions are sorted, have npartitions+1 entries and contain the row wherever the operator's own tasks place it ('Confirmed over all paths'). "
              "P: for every node of the unoptimised and fused plans of a program family over sources with symbolic index labels, every computed row lies inside the node's reported "
-             "divisions for all labels and cell values, and the division tuple is well-formed.",
+             "divisions for all labels and cell values, and the division tuple is well-formed; row counts answered from metadata (Len / Lengths / size rewrites, unaligned "
+             "partners included) equal the computed counts. K also covers the presorted decision behind set_index divisions and parquet partition lengths under a partition selection.",
         note="Divisions asserted by the user (sources, set_index(divisions=)) are assumed; string/datetime divisions, quantile divisions, parquet statistics (C18) outside. "
              "Bounds: tuples of <=5 divisions (K), <=5 rows and <=3 partitions (P).",
         design="§4 C06",
@@ -59,9 +61,22 @@ CLAIMS = {
         category="model_checking", engine="P",
         technique="symbolic execution of real plans; labels/names/container kind of every partition compared with the node's _meta (data-independent, path explorer for data-dependent branches)",
         text="For the root of every optimiser stage and every sub-collection of the logical query, every symbolically computed partition carries the container kind, column labels "
-             "and order, series and index names its _meta declares, and no stage changes the declared schema of the query. One symbolic run covers all table contents within the row bound.",
+             "and order, series and index names its _meta declares, and no stage changes the declared schema of the query (merge indicator / suffix options and concat inputs that agree only up to column order or series name "
+             "included). One symbolic run covers all table contents within the row bound.",
         note="dtype kinds are outside the claim (pandas C promotion rules cannot be encoded); internal lowered nodes are not collections and are not checked.",
         design="§4 C07",
+    ),
+    "C08": dict(
+        category="model_checking", engine="K",
+        technique="CrossHair on every class-specific name-building method with the tokenizer replaced by an injective stand-in: equal names imply equal operands; concrete by-products for repeatability, one-parameter variations and hash seeds",
+        text="Decidable part only: collision-freeness of the name *construction*. For Expr, Blockwise, MapPartitions, FromGraph, FromDelayed, FromMap, FromPandasDivisions, FusedIO, "
+             "TreeReduce, CustomReduction, ReadParquet (`_name`) and `_tokenize_partial`, CrossHair decides over all operand values that two expressions get equal names only if every "
+             "operand (for ReadParquet: every operand but the cache handle, plus the dataset checksum) is equal. By-products (concrete): one-parameter variations of every operator "
+             "template get distinct names and repetitions the same name (logical and optimised), sources differing in one cell get distinct names, plan names and task keys do not "
+             "depend on PYTHONHASHSEED.",
+        note="ASSUMED: dask.base.tokenize (md5 over pickles / C-level normalisers) is injective and deterministic across processes - digest collisions and cross-process behaviour offer "
+             "no symbolic variable. Outside: Fused._name, _DelayedExpr._name, construction-order effects of the singleton table.",
+        design="§4 C08 (originally not applicable; the decidable part was claimed after k_keys existed, see §11.2)",
     ),
     "C09": dict(
         category="model_checking", engine="K+P",
@@ -115,7 +130,9 @@ CLAIMS = {
     "C15": dict(
         category="model_checking", engine="K",
         technique="CrossHair / exhaustive history enumeration on the real memoising functions and the real LRU with an injective stub for the cached computation; symbolic cache environment for set_index divisions",
-        text="Decidable part only: cache-key completeness and eviction safety. _get_divisions, _get_mem_usages and the LRU class run for real over every short history of calls "
+        text="Decidable part only: cache-key completeness and eviction safety. CrossHair decides that the keys built by the real _get_divisions, _get_mem_usages, "
+             "ReadParquetFSSpec._plan, _tokenize_fileinfo and ReadParquet._name are injective in every component the cached value depends on (cache replaced by a non-hashing "
+             "recorder, tokenizer by an injective stand-in). _get_divisions, _get_mem_usages and the LRU class run for real over every short history of calls "
              "(arguments / keys, capacities 1..3): each call returns the value of its own key and the cache never exceeds its capacity; the LRU agrees with a reference "
              "least-recently-looked-up model; a set_index result reports the same divisions whatever happened to the divisions cache in between (symbolic eviction count).",
         note="Outside: Expr._instances weak table, garbage collection, injected task failures, parquet plan/statistics caches and dataset rewrites (need real process histories). "
@@ -127,7 +144,8 @@ CLAIMS = {
         technique="CrossHair on the real metadata readers of module-level caches with the cache content as symbolic environment; clean-environment pickle round trip of every plan form as by-product",
         text="Decidable part only: metadata must not depend on process-global state. The expression is re-constructed from (type, operands) with the caches emptied or churned "
              "(symbolic) and must report the same divisions without raising. By-product: logical / optimised / lowered forms of a program family (incl. quantile-planned set_index "
-             "and sort_values) are pickled, all module caches and the singleton table are emptied, and the unpickled collection agrees in name, schema, divisions and result.",
+             "and sort_values, sources with an unsorted index) are pickled, all module caches and the singleton table are emptied, and the unpickled collection agrees in name, "
+             "schema, divisions and result. Name / cache-key injectivity (k_keys) is shared with C15.",
         note="Outside: pickle's byte-level behaviour, _BackendData / FragmentWrapper reduction (C code), a genuinely separate process.",
         design="§4 C16",
     ),
@@ -135,7 +153,9 @@ CLAIMS = {
         category="translation_validation", engine="P",
         technique="symbolic execution of cut vs uncut real plans (real postpersist rebuild over symbolically computed partitions, real to_delayed/from_delayed and legacy round trips); z3 decides result equality",
         text="For every head node kind (frame, series, index, scalar, unknown divisions, partition-filtered, fused, merged, grouped) x continuation x cut kind, the query continued on "
-             "the re-imported collection is proved to compute the result of the uncut query for all table contents; schema and divisions are compared concretely.",
+             "the re-imported collection is proved to compute the result of the uncut query for all table contents; schema and divisions are compared concretely. Cut kinds: persist, "
+             "delayed round trip, legacy round trip, and the collection protocol used twice around an in-place modification. CrossHair decides that FromGraph / FromDelayed names "
+             "identify every operand (divisions included).",
         note="Trusted: symdf leaf models; the scheduler run inside persist() is replaced by the symbolic executor; distributed outside. Bounds: <=5 rows, <=3 partitions.",
         design="§4 C17",
     ),
@@ -145,7 +165,8 @@ CLAIMS = {
         text="Decidable part only. (1) Every And/Or tree over col-op-const atoms (<=2 leaves quick, 3 thorough), combined with user filter lists, goes through the real "
              "_DNF.extract_pq_filters/normalize/combine/to_list_tuple; z3 proves the pushed filter keeps exactly the rows of the pandas predicate, nulls included. "
              "(2) _aggregate_statistics_to_file with symbolic row-group statistics (lengths = sum of row-group rows, min/max aggregation), _divisions_from_statistics over all small "
-             "(min,max) configurations incl. overlapping files, FusedIO bucket/divisions/task bookkeeping with symbolic divisions.",
+             "(min,max) configurations incl. overlapping files, FusedIO bucket/divisions/task bookkeeping with symbolic divisions. (3) partition lengths answered from statistics under "
+             "a symbolic partition selection (both readers), plan-cache key and file-identity token injectivity.",
         note="The reader (Arrow C++), write/read round trip, filesystem differences and the overwrite guard need files: outside. Counterexample replays do use real parquet files.",
         design="§4 C18",
     ),
@@ -153,7 +174,9 @@ CLAIMS = {
         category="model_checking", engine="P+K",
         technique="z3 equivalence of once- vs twice-optimised real plans over symbolic tables; CrossHair on the real fixed-point drivers with a symbolic rewrite table",
         text="Idempotence is decided for all data on a bounded program family (optimize(optimize(q)) == optimize(q), same plan name on repetition); the convergence drivers "
-             "Expr.simplify / Expr.lower_completely are executed by CrossHair on stub nodes with an arbitrary symbolic successor table (cycle must be reported, fixpoint must be returned, no spinning).",
+             "Expr.simplify / Expr.lower_completely are executed by CrossHair on stub nodes with an arbitrary symbolic successor table (cycle must be reported, fixpoint must be returned, no spinning). "
+             "optimize() is run on every family program, on its own output and with fusion off (a reported non-convergence is a violation); continuations built on an already "
+             "optimised head (nested optimize) are proved equal to the uncut query; the divisions cache key is proved injective (plan determinism).",
         note="Termination of the rule system on all programs is outside the claim (needs a ranking argument); bounds: 4 node names in the driver model, F01 family sizes.",
         design="§4 C19",
     ),
@@ -169,7 +192,6 @@ CLAIMS = {
 }
 NA = {
     "C05": "mutation/aliasing is decided inside pandas' C block manager and disk shuffle needs real I/O; with pure symbolic frames every schedule trivially agrees (vacuous) - needs dynamic schedule exploration, another technique",
-    "C08": "names are md5 digests from dask.base.tokenize (pickle/hashlib C code); process, hash seed and digest collisions offer no symbolic variable for an SMT solver - needs cross-process differential execution",
 }
 PENDING = "check not built yet in this session (planned, see DESIGN.md §4); not claimed until its check exists"
 ALL = [f"C{i:02d}" for i in range(1, 20)]
@@ -203,7 +225,7 @@ def main():
             "add_only": True,
         },
         "engines": [
-            {"name": "K", "path": "kernels/", "serves_properties": ["C06", "C09", "C11", "C13", "C15", "C16", "C18", "C19"],
+            {"name": "K", "path": "kernels/", "serves_properties": ["C02", "C06", "C08", "C09", "C11", "C13", "C15", "C16", "C17", "C18", "C19"],
              "kind_free_text": "CrossHair symbolic execution (z3 per path) of real planner functions with stub self"},
             {"name": "P", "path": "symdf/", "serves_properties": ["C01", "C02", "C03", "C04", "C06", "C07", "C09", "C10", "C11", "C12", "C13", "C14", "C17", "C19"],
              "kind_free_text": "real planner run concretely, real task graph executed over symbolic partitions (z3), equivalence/routing obligations"},
